@@ -113,18 +113,23 @@ NOT_YET = {}
 
 # additions made after the seeded-change rounds (appended to the level text of the check)
 ADDENDA = {
- "C01": " Also: modules carry long stale <file>.go.tmp left-overs; in half of them every generated file is edited in place (same length, still valid Go) and generated again - it must come back byte-identical; own-module imports next to std imports (module paths without a dot).",
- "C03": " The path pool includes third-party paths that end in a std package's full path and look-alike struct pairs (typgen.TwinStruct) plus defined pointer/slice/array/channel types.",
- "C04": " The observing generator also renders what Decl(pos), LocateInPackage, Context.Package and SourceDir answer; packages hold case-twin type names (T7/t7), same-name dependency packages and are regenerated incrementally vs. in full.",
- "C05": " Also: an analysing generator renders ResultsOf for every function of the package and of its module-local imports (diamond and mutually recursive call chains across packages), and a go.work workspace scenario runs packages of 2-3 modules with different go directives / dot-less module paths alone vs. together.",
- "C07": " Layouts include packages without any type, alias-only packages, nested and look-alike sibling modules, dotted base names and stale temp files.",
+ "C06": " Package tags are spread over the package docs of several files; //line directives between declarations.",
+ "C18": " Also: an origin declared in the same package with unexported and blank fields; negatives with exported names and of func / interface / slice / map / named-scalar kinds.",
+ "C17": " Field names include underscore-prefixed, non-ASCII and blank ones; types may be enabled by the interfaces sub-tag alone.",
+ "C15": " Identifiers include multi-byte letters (exhaustive space + random trees).",
+ "C08": " A third of the histories use directory names that sort after gengo.sum (with a root package gengo.sum is then the first name in the module root).",
+ "C01": " Also: modules carry long stale <file>.go.tmp left-overs; in half of them every generated file is edited in place (same length, still valid Go) and generated again - it must come back byte-identical; own-module imports next to std imports (module paths without a dot). A quarter of the packages get white-space-only renderings over a previous output; rendered text includes printf verbs and percent signs; a directed search keeps shape sequences that need several formatter passes.",
+ "C03": " The path pool includes third-party paths that end in a std package's full path and look-alike struct pairs (typgen.TwinStruct) plus defined pointer/slice/array/channel types. Every snippet value is rendered a second time, in reverse order, into a second writer with its own import table; identifiers include multi-byte letters.",
+ "C04": " The observing generator also renders what Decl(pos), LocateInPackage, Context.Package and SourceDir answer; packages hold case-twin type names (T7/t7), same-name dependency packages and are regenerated incrementally vs. in full. Cross-module cases: entrypoints as import paths over two modules in every order, then two forced runs on the result (generated files must be a fixed point). One recorded open finding (D35, known_findings.json) is printed as KNOWN-FINDING.",
+ "C05": " Also: an analysing generator renders ResultsOf for every function of the package and of its module-local imports (diamond and mutually recursive call chains across packages), and a go.work workspace scenario runs packages of 2-3 modules with different go directives / dot-less module paths alone vs. together. Process-wide snippet values are rendered into every package; the same struct type is held by a struct of its own package and by one of an importing package.",
+ "C07": " Layouts include packages without any type, alias-only packages, nested and look-alike sibling modules, dotted base names and stale temp files. Also: mixed-case generator and base names, wildcard and import-path entrypoints, a package whose path repeats the module path, //line directives in stale outputs and user files, runs started from a package directory; an inotify monitor records every path touched during the run.",
  "C09": " Every snippet is rendered twice through the same writer; the second rendering must append the same bytes.",
  "C10": " Half of the strings are compositions of fragments (all line ends, both quote characters, NUL, BOM, U+2028/9, invalid UTF-8, comment and template metacharacters).",
  "C11": " Expressions include look-alike struct pairs that differ in exactly one place (possibly behind a pointer) and defined types of every underlying kind.",
- "C12": " Three passes: layout order, reverse order, and through a running generator (Context.Doc, then Package.Doc/Comment, then Context.Doc again for every type and field); a third of the documented declarations are named after the first word of their doc.",
+ "C12": " Three passes: layout order, reverse order, and through a running generator (Context.Doc, then Package.Doc/Comment, then Context.Doc again for every type and field); a third of the documented declarations are named after the first word of their doc. Layouts include group doc comments, single-member groups, imports with trailing comments directly above the first declaration, //line directives and opening-line notes.",
  "C13": " The synthetic modules require three replaced modules (sibling directory, nested module, short path with a long replacement directory); accessor panics are attributed.",
- "C14": " The first answer is snapshotted before any later call (a shared, later-mutated slice cannot hide a difference) and must still print the same afterwards; cross-package queries q.ResultsOf(p.F) included.",
- "C16": " Fields built from earlier same-package types (value, pointer, slice, map value; generic instantiations) and own fields that shadow promoted ones are generated.",
+ "C14": " The first answer is snapshotted before any later call (a shared, later-mutated slice cannot hide a difference) and must still print the same afterwards; cross-package queries q.ResultsOf(p.F) included. A second universe loaded from the same sources is asked every generated function in reverse order; answers must equal the first universe's.",
+ "C16": " Fields built from earlier same-package types (value, pointer, slice, map value; generic instantiations) and own fields that shadow promoted ones are generated. Multi-line fields and declarations with a comment trailing their closing line sit above undocumented fields / types.",
  "C19": " Also: first-use cases (a stand-alone -race binary linking only camelcase + inflector whose very first calls are made by 16-96 goroutines leaving a barrier), many-distinct order independence (200 000 / 1 000 000 distinct inputs forwards in one fresh process, backwards in another), held Split results re-checked after later calls.",
  "C20": " Also: first-use cases (stand-alone -race binary, first calls concurrent) and many-distinct order independence (200 000 / 1 000 000 distinct inputs through one process forwards and another backwards - enough for birthday collisions in any 32-bit key space).",
 }
